@@ -10,7 +10,18 @@ Monitors (runtime, real Polar code):
 Oracle: mpmath quadrature / finite sums on the oracle's own densities (ref/laws.py), cross-checked by a second quadrature on a
 refined partition (Beta: reflected upper half) that also yields the error estimate entering the tolerance; analytic mgf
 domain for existence; exact forward propagation of the source AST (ref/engine.py) for the programs.  Nothing here calls a
-Polar function to obtain an expected value."""
+Polar function to obtain an expected value.
+
+Mechanism keys assigned by diagnostic predicates (None = unattributed):
+  trig-exp-mix-exp-factor-dropped                 request with Sin/Cos and Exp powers answered with the value of the trig-only moment
+  zero-frequency-term-lost-in-cf-derivative       truth - polar == (constant term of sin^b cos^c) * E[X^a], a >= 1, b+c even
+  const-func-decimal-literal-evaluated-in-double  Sin/Cos/Exp of a decimal literal off by a double-precision rounding error
+  func-var-placeholder-conflated-with-old-value   wrong closed form and the normalised program lets the previous value of a
+                                                  functional variable meet the placeholder of its new value (conditioned
+                                                  functional assignment keeping its old value / read between draw and assignment)
+  nonexistent-exp-moment-answered                 value returned for E[X^a e^{dX}] outside the analytic mgf domain
+  solver-closed-form-differs-from-iterated-recurrences   Polar's recurrences, iterated numerically by the harness, reproduce
+                                                  the reference but the solver's closed form does not (C01/C04 territory)"""
 import random
 from fractions import Fraction
 
@@ -384,12 +395,9 @@ def judge_const(func, arg_str, k, outcome, exact):
 
 
 def _const_value(arg_str):
-    s = str(arg_str)
-    if "/" in s or "." not in s:
-        fr = Fraction(s)
-    else:
-        fr = Fraction(s)   # a decimal literal denotes the exact decimal (Polar rationalises decimal literals elsewhere)
-    return _mpf(fr)
+    # a decimal literal denotes the exact decimal number (Polar rationalises decimal literals everywhere else, e.g.
+    # Uniform(0.98, 1.02) -> Uniform(49/50, 51/50)); "3/2" and "-2" are exact anyway
+    return _mpf(Fraction(str(arg_str)))
 
 
 # ------------------------------------------------------------------------------------------------ run
@@ -604,10 +612,10 @@ def run_program(case, tier):
             for g in goals:
                 try:
                     cf, is_exact, recs = P.closed_form(program, rb, g)
-                    outcomes.append(("value", cf, is_exact))
+                    outcomes.append(("value", cf, is_exact, recs))
                     res["events"]["RecurrenceSolver.get"] = res["events"].get("RecurrenceSolver.get", 0) + 1
                 except Exception as e:
-                    outcomes.append(("exc", e, None))
+                    outcomes.append(("exc", e, None, None))
     finally:
         FA.exact_func_moments = old_flag
         P.reset_settings()
@@ -723,7 +731,12 @@ def run_program(case, tier):
         if bad:
             bad["goal"] = gs
             bad["program"] = case["text"]
-            bad["key"] = _program_key(case, bad, call_keys, struct)
+            if bad["kind"] == "wrong-moment" and _recurrences_agree_with_reference(out[3], g, ref, sc, values, N, exact):
+                # Polar's own recurrences (where the functional moments enter) reproduce the reference when iterated
+                # numerically: the discrepancy was introduced by the recurrence solver, not by anything C13 is about
+                bad["key"] = "solver-closed-form-differs-from-iterated-recurrences"
+            else:
+                bad["key"] = _program_key(case, bad, call_keys, struct)
             res["violations"].append(bad)
         if len(rows) < 3:
             rows.append({"goal": gs, "closed_form": str(cf)[:160], "ref_values": [P.val_str(x)[:30] for x in ref[:4]]})
@@ -734,6 +747,59 @@ def run_program(case, tier):
     res["verdict"] = "violated" if res["violations"] else "held"
     res["sample"] = {"program": case["text"], "mode": "exact" if exact else "default", "goals": rows, "func_moment_calls": hook_rows}
     return res
+
+
+def _recurrences_agree_with_reference(recs, goal, ref, sc, values, N, exact):
+    """iterate Polar's recurrence system E[M]_{n+1} = sum_j c_j E[M_j]_n numerically from its initial values (own linear
+    iteration, no Polar solver involved) and compare E[goal]_n with the reference for n = 0..N"""
+    import sympy
+    try:
+        keys = list(recs.recurrence_dict.keys())
+        syms = sorted({x for k in keys for x in k.free_symbols}, key=lambda x: x.name)
+        if not syms:
+            return False
+
+        def expo(m):
+            return tuple(sympy.Poly(m, *syms).monoms()[0])
+
+        def num(x):
+            v = P.eval_at(x, None, values)
+            return v if isinstance(v, Fraction) else mp.mpf(v)
+
+        def add(x, y):
+            if isinstance(x, Fraction) and isinstance(y, Fraction):
+                return x + y
+            return _mpf(x) + _mpf(y)
+
+        def mul(x, y):
+            if isinstance(x, Fraction) and isinstance(y, Fraction):
+                return x * y
+            return _mpf(x) * _mpf(y)
+
+        rows = {}
+        for k in keys:
+            poly = sympy.Poly(sympy.expand(recs.recurrence_dict[k]), *syms)
+            rows[expo(k)] = [(tuple(mon), num(coef)) for mon, coef in poly.terms()]
+        val = {expo(k): num(recs.init_values_dict[k]) for k in keys}
+        zero = tuple(0 for _ in syms)
+        gkey = expo(sympy.sympify(P.monom_str(goal)))
+        for n in range(N + 1):
+            if n > 0:
+                new = {}
+                for k, terms in rows.items():
+                    tot = Fraction(0)
+                    for mon, coef in terms:
+                        tot = add(tot, coef if mon == zero else mul(coef, val[mon]))
+                    new[k] = tot
+                val = new
+            rvm = _mpf(ref[n])
+            S = max(1, abs(rvm), sc[n])
+            tol = (mp.mpf(10) ** -22 if exact else mp.mpf(10) ** -15) * S
+            if abs(_mpf(val[gkey]) - rvm) > tol:
+                return False
+        return True
+    except Exception:
+        return False
 
 
 def _program_key(case, bad, call_keys, struct):
